@@ -15,3 +15,8 @@ chk("C04", "exploration", "runtime monitoring: exit status and diagnostics of th
     "The verdict of `knut check` (and of print/balance) on generated valid journals, single-fault mutants and an enumerated family of small journals is compared with an independently written account-lifecycle automaton; for single planted faults the diagnostic must name date and account of the first offending directive. The thorough tier enumerates all 118755 multisets of <=5 directives over a 24-symbol alphabet.",
     "Trusts the automaton's reading of the statement (evaluation order prices, opens, transactions, assertions, closes; closing forgets positions). No accruals; assertions only on A/L accounts.",
     "DESIGN.md §4 C04")
+
+chk("C03", "exploration", "runtime monitoring: valued reports of the real binary against an exact-rational mark-to-market reference with an explicit truncation budget; planted missing prices",
+    "Valued reports (-v V) of generated journals with tree-shaped price histories are compared cell by cell with quantity x latest price computed in exact rationals; the allowed deviation is an explicit bound derived from the number of 8-decimal truncation steps. Journals with a planted missing price must fail with a diagnostic and empty stdout.",
+    "Trusts the reference price walk (forest-shaped graphs only, so chains are unique), the derived window corollary (value shown = mark at column minus mark before the window) and the budget formula; --close=false reports only.",
+    "DESIGN.md §4 C03")
